@@ -1,9 +1,45 @@
-"""Replay files for failed obligations (DESIGN.md section 8)."""
+"""Replay files for failed obligations (DESIGN.md section 8).
+
+Verus gives no counterexample.  For obligations that have a registered demonstration on the real
+code (a #[cfg(test)] module under /verif/findings, appended to a scratch copy of /repo's current
+working tree and run offline, possibly under strace fault injection or in a private mount
+namespace), the demonstration is run: if it FAILS on the current tree, its inputs are the failing
+input and the replay file is runnable; otherwise the VIOLATION line ends in no-failing-input-found.
+"""
 import json
 import os
 import re
+import subprocess
 
 VERIF = os.path.dirname(os.path.dirname(os.path.abspath(__file__)))
+
+# (regex on the obligation label / function key, command relative to /verif)
+REGISTRY = [
+    (r"remove_all\.(dot_dotdot_refused|subdir_in_root)|remove_inode\.single_entry_name",
+     ["tools/replay_real.sh", "findings/D1_remove_all_dotdot.rs", "verif_replay_d1"]),
+    (r"openat2\.path_has_no_interior_nul",
+     ["tools/replay_real.sh", "findings/D7_openat2_nul.rs", "verif_replay_d7"]),
+    (r"proc_subpath\.any_nonnegative_fd",
+     ["tools/replay_real.sh", "findings/D2_D3_reopen.rs", "verif_replay_d2"]),
+    (r"(open_follow|reopen|ProcfsResolver)\.creation_flags_refused",
+     ["tools/replay_real.sh", "findings/D2_D3_reopen.rs", "verif_replay_d3"]),
+    (r"open\.unmasked_retry|ProcfsHandle\.open.*termination|open\.unlabelled:could not prove termination",
+     ["tools/replay_d4.sh"]),
+    (r"openat2_resolve_partial.*(unreachable|unlabelled)",
+     ["tools/replay_strace.sh", "findings/D5_unreachable_on_fault.rs", "verif_replay_d5", "openat2:error=EMFILE:when=3+"]),
+    (r"static GLOBAL_PROCFS_HANDLE",
+     ["tools/replay_real.sh", "findings/D5c_global_procfs_init.rs", "verif_replay_d5c"]),
+    (r"static PROTECTED_SYMLINKS_SYSCTL",
+     ["tools/replay_subsetpid.sh", "findings/D5d_sysctl_init.rs", "verif_replay_d5d"]),
+]
+
+
+def find_demo(fl):
+    hay = "%s %s" % (fl.get("label_full") or "", fl.get("function") or "")
+    for pat, cmd in REGISTRY:
+        if re.search(pat, hay):
+            return cmd
+    return None
 
 
 def write_replay(prop, fl, results):
@@ -34,6 +70,21 @@ def write_replay(prop, fl, results):
         "note": "Verus gives no counterexample; no concrete failing input was derived for this obligation (no-failing-input-found).",
     }
     found = False
+    demo = find_demo(fl)
+    if demo and os.environ.get("VERIF_NO_REPLAY") != "1":
+        try:
+            p = subprocess.run(demo, cwd=VERIF, capture_output=True, text=True, timeout=900)
+            out = (p.stdout + p.stderr)[-6000:]
+            doc["replay_cmd"] = "cd /verif && " + " ".join(demo)
+            doc["replay_output"] = out
+            if p.returncode != 0 and ("test result: FAILED" in out or "panicked" in out or "Aborted" in out or "overflowed its stack" in out):
+                found = True
+                doc["failing_input"] = "the scenario of %s (see the module text): it fails on the current tree" % demo[1 if len(demo) > 1 else 0]
+                doc["note"] = "registered demonstration run against the current working tree of /repo: FAILS (see replay_output)"
+            else:
+                doc["note"] = "registered demonstration run against the current tree did not fail; obligation reported without a failing input"
+        except Exception as e:  # noqa: BLE001
+            doc["note"] = "replay could not be run: %r" % e
     with open(path, "w") as f:
         json.dump(doc, f, indent=1)
     return path, found
